@@ -170,7 +170,7 @@ def run(ck, F):
             else:
                 # if the selection is a closure predicate, it must capture the namespace; passing it on to a callee is judged there
                 preds = [s for i in sorted(B.reach) for s in B.blocks[i]["stmts"] if s["k"] == "assign" and s["rv"]["k"] == "aggregate" and s["rv"].get("closure")]
-                captured = any(any(o.get("k") in ("copy", "move") and any(x.kind == "arg" and x.local == l for x in M.trace(B, o, ())) for o in s["rv"]["ops"]) for s in preds)
+                captured = any(any(o.get("k") in ("copy", "move") and any(x.kind == "arg" and x.local == l for x in M.trace(B, o, ())) for o in s_["rv"]["ops"]) for s_ in preds)
                 aliases = {l}
                 for _ in range(4):
                     for a in list(aliases):
@@ -185,17 +185,43 @@ def run(ck, F):
                      "iter::Iterator::rposition", "iter::Iterator::all"))]
                 sel_bad = []
                 COMPONENTS = {"nodes", "soap_messages", "soap_ports", "soap_bindings"}
+                ITER = M.IDENTITY_CALLS + ("[T]>::iter", "IntoIterator::into_iter", "Vec::<T, A>::iter")
+
+                def captures_ns(o, depth=0):
+                    """the closure literal o captures the namespace parameter, directly or through another closure it captures"""
+                    if depth > 3:
+                        return False
+                    for op in o.rv["ops"]:
+                        if op.get("k") not in ("copy", "move"):
+                            continue
+                        for x in M.trace(B, op, ()):
+                            if x.kind == "arg" and x.local == l:
+                                return True
+                            if x.kind == "aggregate" and x.rv.get("closure") and captures_ns(x, depth + 1):
+                                return True
+                    return False
+                consumed = set()   # filters that feed a later selection are judged with it
                 for sbb, st in sel:
-                    src = M.trace(B, st["args"][0], M.IDENTITY_CALLS + ("[T]>::iter", "IntoIterator::into_iter", "Vec::<T, A>::iter"))
+                    # the selection is the conjunction of the predicates along the chain `src.filter(p1).filter(p2).find(p3)`
+                    chain = [(sbb, st)]
+                    cur = st
+                    src = []
+                    for _ in range(6):
+                        src = M.trace(B, cur["args"][0], ITER)
+                        nxt = [o for o in src if o.kind == "call" and (M.Body.callee_decl(o.term) or "").endswith(("iter::Iterator::filter", "iter::Iterator::take_while", "iter::Iterator::skip_while"))]
+                        if len(src) == 1 and nxt:
+                            chain.append((nxt[0].bb, nxt[0].term))
+                            consumed.add(nxt[0].bb)
+                            cur = nxt[0].term
+                        else:
+                            break
                     over_components = any(set(o.fields()) & COMPONENTS for o in src) or any(
                         o.kind == "call" and (M.Body.callee_decl(o.term) or "").endswith(("::descendants", "::children")) for o in src)
-                    if not over_components:
+                    if not over_components or sbb in consumed:
                         continue
-                    clos = [o for a in st["args"][1:] for o in M.trace(B, a, ()) if o.kind == "aggregate" and o.rv.get("closure")]
-                    for c in clos:
-                        caps = any(o.get("k") in ("copy", "move") and any(x.kind == "arg" and x.local == l for x in M.trace(B, o, ())) for o in c.rv["ops"])
-                        if not caps:
-                            sel_bad.append(B.term(sbb).get("sp"))
+                    clos = [o for (_, ct) in chain for a in ct["args"][1:] for o in M.trace(B, a, ()) if o.kind == "aggregate" and o.rv.get("closure")]
+                    if clos and not any(captures_ns(c) for c in clos):
+                        sel_bad.append(B.term(sbb).get("sp"))
                 if sel_bad:
                     ck.violation("R3", f"{short}:namespace-not-in-predicate", sel_bad[0],
                                  f"{short}: a component is selected by a predicate that does not look at the namespace of the reference (`{pname}`): "
